@@ -508,3 +508,13 @@ Proof.
   destruct ((mdo _ <- rtr_stop; mdo _ <- dump 1; modify_sk (fun s => upd_st s c_RTR_CONNECTING)) w') as [[] w2|e w2]; [|reflexivity].
   apply IH; [destruct H as [Hm _]; destruct Hs as [Hm2 _]; unfold M in *; lia|exact Hf].
 Qed.
+
+Theorem run_script_fuel n f1 f2 refresh expire retry mode P K es os ss :
+  (ev_bytes es < 8 * f1)%nat -> (f1 <= f2)%nat ->
+  run_script n f1 refresh expire retry mode P K es os ss = run_script n f2 refresh expire retry mode P K es os ss.
+Proof.
+  intros Hb Hf. unfold run_script. destruct (negb (init_ok refresh expire retry)); [reflexivity|]. cbv zeta.
+  set (w0 := mkW (init_sock refresh expire retry mode) P K es os ss 1000 []).
+  destruct (dump_out 0 w0) as (d0 & -> & _). cbn [sk pfx keys evs opens sends now out].
+  rewrite (run_fsm_fuel n f1 f2); [reflexivity|exact Hb|exact Hf].
+Qed.
